@@ -316,7 +316,12 @@ fn standalone_config_json(m: &Model, project_path: &str, output_path: &str, forc
 /// `<root>/src/generated`, cwd = `<root>/src-tauri` (as cargo runs a build script).
 pub fn materialise(root: &Path, path: RunPath, m: &Model, force: bool) -> Site {
     let files = render_sources(m);
+    // a file is only written when its content changes: an edit touches what it edits, every other
+    // source and configuration file keeps its modification time, as in a real working tree
     let wr = |p: &Path, s: &str| {
+        if std::fs::read_to_string(p).map_or(false, |old| old == s) {
+            return;
+        }
         if let Some(parent) = p.parent() {
             let _ = std::fs::create_dir_all(parent);
         }
@@ -329,7 +334,9 @@ pub fn materialise(root: &Path, path: RunPath, m: &Model, force: bool) -> Site {
             let ws = root.join("ws");
             let proj = ws.join("proj");
             std::fs::create_dir_all(&proj).unwrap_or_else(|e| infra_exit(&format!("cannot create {}: {}", proj.display(), e)));
-            tool::write_project(&proj, &files);
+            for (rel, content) in &files {
+                wr(&proj.join(rel), content);
+            }
             let mut args: Vec<String> = vec!["generate".into()];
             let mut config_files = vec![];
             let cfg_path = ws.join("cfg.json");
@@ -353,7 +360,9 @@ pub fn materialise(root: &Path, path: RunPath, m: &Model, force: bool) -> Site {
         RunPath::Buildrs => {
             let st = root.join("src-tauri");
             std::fs::create_dir_all(&st).unwrap_or_else(|e| infra_exit(&format!("cannot create {}: {}", st.display(), e)));
-            tool::write_project(&st, &files);
+            for (rel, content) in &files {
+                wr(&st.join(rel), content);
+            }
             let mut config_files = vec![];
             let tg = st.join("typegen.json");
             if m.needs_file_only_settings() {
